@@ -429,6 +429,28 @@ def r2(ctx):
                               ctx.construct(m, text=f"names reduced={reduced} {opts}"),
                               f"symbolic length is {v[1] if isinstance(v, tuple) and len(v) > 1 else v}; the coding matrix has {want} columns")
     ctx.floor("C11.R2", n, 14, "symbolic name-length evaluations")
+    # names must be pairwise distinct: every alternative of a generated name depends on the loop variable
+    for key, cq in sorted(reg.items()):
+        if key == "custom":
+            continue
+        m = P.method(cq, "get_coding_column_names")
+        for lc in [x for x in ast.walk(m.node) if isinstance(x, ast.ListComp)]:
+            tv = {t.id for t in ast.walk(lc.generators[0].target) if isinstance(t, ast.Name)}
+            leaves = _value_leaves(lc.elt)
+            ctx.look()
+            bad = [l for l in leaves if not any(isinstance(x, ast.Name) and x.id in tv for x in ast.walk(l))]
+            ctx.check(not bad, "C11.R2", f"{cq.split('.')[-1]}: every generated column name depends on its position/level", m.module.line(lc),
+                      ctx.construct(m, text="distinct names"),
+                      f"name alternative `{norm(bad[0]) if bad else ''}` is a constant: several columns get the same name and collapse into one when the encoding becomes a dict of columns")
+
+
+def _value_leaves(e: ast.AST):
+    """Alternatives an expression can evaluate to: both arms of a conditional, the default of dict.get, else the expression."""
+    if isinstance(e, ast.IfExp):
+        return _value_leaves(e.body) + _value_leaves(e.orelse)
+    if isinstance(e, ast.Call) and isinstance(e.func, ast.Attribute) and e.func.attr == "get" and len(e.args) == 2:
+        return [ast.Subscript(value=e.func.value, slice=e.args[0], ctx=ast.Load())] + _value_leaves(e.args[1])
+    return [e]
 
 
 def r3(ctx):
@@ -634,4 +656,24 @@ def r7(ctx):
               ctx.construct(fb, text="base sentinel"), "the base must be tested with `is UNSET`, not by truthiness")
 
 
-RULES = [("C11.R1", r1), ("C11.R2", r2), ("C11.R3", r3), ("C11.R4", r4), ("C11.R5", r5), ("C11.R6", r6), ("C11.R7", r7)]
+
+def r8(ctx):
+    """ContrastsState forwards reduced_rank / sparse to the contrasts object; the C() encoder and the encoding cache treat a contrast-coded
+    factor correctly (= C03.R6 cache key, C06.R2/R3 positional row removal in the encoder closures)."""
+    P = ctx.project
+    CS = P.cls(f"{CONTRASTS}.ContrastsState")
+    for name in ("get_coding_matrix", "get_coefficient_matrix"):
+        m = CS.methods[name]
+        r = returns_of(m.node)
+        c = r[0].value if r else None
+        ctx.look()
+        ok = isinstance(c, ast.Call) and norm(c.func) == f"self.contrasts.{name}" and [norm(a) for a in c.args] == ["self.levels"] \
+            and {k.arg: norm(k.value) for k in c.keywords} == {"reduced_rank": "reduced_rank", "sparse": "sparse"}
+        ctx.check(ok, "C11.R8", f"ContrastsState.{name} forwards levels, reduced_rank and sparse", m.where, ctx.construct(m, text="forward"),
+                  f"returns `{norm(c) if c is not None else None}`: a dropped keyword silently returns the matrix for the default rank mode")
+    from .shared import relabel
+    from . import c06
+    relabel(ctx, "C11.R8", c03.r6, c06.r3)
+
+
+RULES = [("C11.R1", r1), ("C11.R2", r2), ("C11.R3", r3), ("C11.R4", r4), ("C11.R5", r5), ("C11.R6", r6), ("C11.R7", r7), ("C11.R8", r8)]
